@@ -17,7 +17,11 @@ var shareValues = []string{"X1", "x1", " X1", "X2", "x2 ", "Ab", "aB", "AB ", ""
 
 // ShareRequest: few names, many repeats, values differing only by case/space so that wrong sharing shows.
 func ShareRequest(r R) *sl.Req {
-	req := &sl.Req{Method: "GET", Path: "/s", Status: 200}
+	req := &sl.Req{Method: "GET", Path: Pick(r, []string{"/s", "/Dir/File.PHP", "/a/b/X1"}), Status: 200}
+	if Chance(r, 0.6) {
+		// arguments the library extracts itself: their keys and values are substrings of the URI
+		req.RawQuery = Pick(r, []string{"a=X1", "a=X1&b=x1", "A=Ab&a=aB&c=X2", "b=Zz&b=zZ", "q=X1&a=X1"})
+	}
 	n := 2 + r.IntN(7)
 	for i := 0; i < n; i++ {
 		req.Get = append(req.Get, sl.KV{K: Pick(r, shareNames), V: Pick(r, shareValues)})
@@ -37,7 +41,7 @@ func shareTarget(r R, link bool) []sl.Sel {
 	if link && Chance(r, 0.6) {
 		return []sl.Sel{{Var: Pick(r, []string{"MATCHED_VAR", "MATCHED_VARS", "MATCHED_VAR_NAME", "MATCHED_VARS_NAMES"})}}
 	}
-	switch r.IntN(9) {
+	switch r.IntN(12) {
 	case 0:
 		return []sl.Sel{{Var: "ARGS"}}
 	case 1:
@@ -54,8 +58,16 @@ func shareTarget(r R, link bool) []sl.Sel {
 		return []sl.Sel{{Var: "ARGS_GET", Count: true}, {Var: "ARGS_GET"}}
 	case 7:
 		return []sl.Sel{{Var: "TX", Kind: 1, Key: "v"}, {Var: "ARGS_GET", Kind: 2, Key: "^[ab]$"}}
-	default:
+	case 8:
 		return []sl.Sel{{Var: "ARGS_POST"}, {Var: "ARGS_GET", Kind: 1, Key: "b"}}
+	default:
+		// the URI family: values that are substrings of one another (shared string data)
+		vs := []string{"REQUEST_URI", "REQUEST_URI_RAW", "REQUEST_FILENAME", "REQUEST_BASENAME", "QUERY_STRING", "REQUEST_LINE"}
+		out := []sl.Sel{{Var: Pick(r, vs)}}
+		if Chance(r, 0.6) {
+			out = append(out, sl.Sel{Var: Pick(r, vs)})
+		}
+		return out
 	}
 }
 
